@@ -228,4 +228,84 @@ theorem makeModsSingle_ok (o : Opts) (ads : List Matchable) (mods : List SMod) (
           simp only [Except.ok.injEq] at h
           exact h.symm
 
+theorem cutMods_cuts (c : List Int) (cuts : List SMod) (h : cutMods c = .ok cuts) : ∀ m ∈ cuts, ∃ n, m = SMod.cut n := by
+  unfold cutMods at h
+  split at h
+  · simp at h
+  · split at h
+    · simp at h
+    · simp only [Except.ok.injEq] at h
+      subst h
+      intro m hm
+      obtain ⟨n, _, rfl⟩ := List.mem_map.mp hm
+      exact ⟨n, rfl⟩
+
+/-- the modifiers the CLI puts before / behind the adapter stage never reverse-complement and are fine for every action -/
+theorem makeModsSingle_shape (o : Opts) (ads : List Matchable) (mods : List SMod) (h : makeModsSingle o ads = .ok mods) :
+    ∃ pre post, (∀ m ∈ pre ++ post, m.isRevcomp = false ∧ ∀ s, m.OK s) ∧
+      zeroCapBases (pre ++ post) = (if o.zeroCap then [o.qualityBase.toNat] else []) ∧
+      (mods = pre ++ post ∨
+       mods = pre ++ SMod.revcomp ⟨ads, o.times, o.action⟩ (!o.renameGiven) pre.isEmpty :: post ∨
+       mods = pre ++ SMod.adapters ⟨ads, o.times, o.action⟩ pre.isEmpty :: post) := by
+  obtain ⟨cuts, hc, rfl⟩ := makeModsSingle_ok o ads mods h
+  have hcuts := cutMods_cuts _ _ hc
+  refine ⟨cuts ++ (match o.nextseqTrim with | some c => [SMod.nextseq c o.qualityBase] | none => []) ++
+            (qtrimOf o.qualityCutoff o.qualityBase).toList,
+    (if o.polyA then [SMod.polyA false] else []) ++
+          (match o.length with | some l => [SMod.shorten l] | none => []) ++ bothEndMods o ++
+          (match o.rename with | some t => [SMod.rename t] | none => []), ?_, ?_, ?_⟩
+  · intro m hm
+    simp only [List.mem_append] at hm
+    have hq : ∀ m ∈ (qtrimOf o.qualityCutoff o.qualityBase).toList, ∃ a b c, m = SMod.qtrim a b c := by
+      intro m hm
+      unfold qtrimOf at hm
+      split at hm
+      · simp at hm; exact ⟨_, _, _, hm⟩
+      · simp at hm
+    have hb : ∀ m ∈ bothEndMods o, m.isRevcomp = false ∧ ∀ s, m.OK s := by
+      intro m hm
+      unfold bothEndMods at hm
+      simp only [List.mem_append, List.mem_map] at hm
+      rcases hm with (((hm | hm) | ⟨x, _, rfl⟩) | hm) | hm
+      · split at hm <;> simp at hm; subst hm; exact ⟨rfl, fun _ => trivial⟩
+      · split at hm <;> simp at hm; subst hm; exact ⟨rfl, fun _ => trivial⟩
+      · exact ⟨rfl, fun _ => trivial⟩
+      · split at hm <;> simp at hm; subst hm; exact ⟨rfl, fun _ => trivial⟩
+      · split at hm <;> simp at hm; subst hm; exact ⟨rfl, fun _ => trivial⟩
+    rcases hm with ((hm | hm) | hm) | (((hm | hm) | hm) | hm)
+    · obtain ⟨n, rfl⟩ := hcuts m hm; exact ⟨rfl, fun _ => trivial⟩
+    · split at hm <;> simp at hm; subst hm; exact ⟨rfl, fun _ => trivial⟩
+    · obtain ⟨a, b, c, rfl⟩ := hq m hm; exact ⟨rfl, fun _ => trivial⟩
+    · split at hm <;> simp at hm; subst hm; exact ⟨rfl, fun _ => trivial⟩
+    · split at hm <;> simp at hm; subst hm; exact ⟨rfl, fun _ => trivial⟩
+    · exact hb m hm
+    · split at hm <;> simp at hm; subst hm; exact ⟨rfl, fun _ => trivial⟩
+  · have hcz : cuts.flatMap SMod.capBases = [] := by
+      rw [List.flatMap_eq_nil_iff]
+      intro m hm; obtain ⟨n, rfl⟩ := hcuts m hm; rfl
+    have hqz : (qtrimOf o.qualityCutoff o.qualityBase).toList.flatMap SMod.capBases = [] := by
+      unfold qtrimOf; split <;> simp [SMod.capBases]
+    simp only [zeroCapBases, List.flatMap_append, hcz, hqz, bothEndMods]
+    have e1 : (match o.nextseqTrim with | some c => [SMod.nextseq c o.qualityBase] | none => []).flatMap SMod.capBases = [] := by
+      split <;> simp [SMod.capBases]
+    have e2 : (if o.polyA then [SMod.polyA false] else []).flatMap SMod.capBases = [] := by
+      split <;> simp [SMod.capBases]
+    have e3 : (match o.length with | some l => [SMod.shorten l] | none => []).flatMap SMod.capBases = [] := by
+      split <;> simp [SMod.capBases]
+    have e4 : (match o.rename with | some t => [SMod.rename t] | none => []).flatMap SMod.capBases = [] := by
+      split <;> simp [SMod.capBases]
+    have e5 : (if o.trimN then [SMod.trimN] else []).flatMap SMod.capBases = [] := by
+      split <;> simp [SMod.capBases]
+    have e7 : (o.stripSuffix.map SMod.stripSuffix).flatMap SMod.capBases = [] := by
+      rw [List.flatMap_eq_nil_iff]; intro m hm; obtain ⟨x, _, rfl⟩ := List.mem_map.mp hm; rfl
+    have e8 : (if (!o.pfx.isEmpty || !o.sfx.isEmpty) = true then [SMod.prefixSuffix o.pfx o.sfx] else []).flatMap SMod.capBases = [] := by
+      split <;> simp [SMod.capBases]
+    rw [e1, e2, e3, e4, e5, e7, e8]
+    cases o.lengthTag <;> cases o.zeroCap <;> simp [SMod.capBases]
+  · by_cases he : ads.isEmpty = true
+    · left; simp [he]
+    · by_cases hr : o.revcomp = true
+      · right; left; simp [he, hr]
+      · right; right; simp [he, hr]
+
 end Cutadapt
